@@ -7,7 +7,7 @@ static void mon_read_result(struct DataAccess *obj, _Bool ok) { (void)obj; (void
 enum { Z_OK = 0, Z_STREAM_END = 1, Z_NEED_DICT = 2, Z_ERRNO = -1, Z_STREAM_ERROR = -2, Z_DATA_ERROR = -3, Z_MEM_ERROR = -4, Z_BUF_ERROR = -5, Z_VERSION_ERROR = -6 };
 struct gzFILE { int id; };
 struct z_stream_model { unsigned int avail_in; const unsigned char *next_in; unsigned int avail_out; unsigned char *next_out; };
-static struct { unsigned long inflated, written, pending; _Bool stream_end_seen, last_was_stream_end, must_raise; size_t last_got; const unsigned char *outbuf; } GZ;
+static struct { unsigned long inflated, written, pending; _Bool stream_end_seen, last_was_stream_end, must_raise, init_called, gzip_only; size_t last_got; const unsigned char *outbuf; } GZ;
 static size_t gz_fread(void *p, size_t sz, size_t n, struct gzFILE *f)
 {
   size_t got = nondet_size_t();
@@ -61,7 +61,18 @@ static size_t gz_fwrite(const void *p, size_t sz, size_t n, struct gzFILE *fout)
   __CPROVER_assigns(zerr, stream.avail_in, stream.avail_out, stream.next_out, GZ, g_exc, g_exc_by_pointer, __CPROVER_object_whole(output_buffer)) \
   __CPROVER_loop_invariant(g_exc == EXC_NONE && !g_exc_by_pointer && GZ.pending == 0 && GZ.written == GZ.inflated && !GZ.must_raise) \
   __CPROVER_loop_invariant((zerr == Z_STREAM_END) == GZ.stream_end_seen && stream.avail_in <= 512 && GZ.last_got == got)
+/* zlib.h, inflateInit2: windowBits 8..15 = zlib format; "add 16 to decode only the gzip format"; "add 32 to enable zlib and
+   gzip decoding with automatic header detection"; negative = raw deflate.  MAX_WBITS is 15 (zconf.h). */
+#define MAX_WBITS 15
+static int gz_inflateInit2(struct z_stream_model *s, int window_bits)
+{
+  (void)s;
+  GZ.init_called = 1;
+  GZ.gzip_only = (window_bits >= 16 + 8 && window_bits <= 16 + 15);
+  return nondet_bool() ? Z_OK : Z_MEM_ERROR;
+}
 #include "check_zlib_error_code.inc"
+#include "gz_inflate_init.inc"
 #include "gz_inflate_loop.inc"
 
 static void check_zlib_error_code(int zerr)
@@ -78,6 +89,15 @@ __CPROVER_assigns(GZ, g_exc, g_exc_by_pointer)
 __CPROVER_ensures(g_exc == EXC_NONE ==> (GZ.stream_end_seen && !GZ.must_raise && GZ.written == GZ.inflated && GZ.pending == 0))
 __CPROVER_ensures(!g_exc_by_pointer);
 
+static void gz_inflate_init(struct z_stream_model *stream_)
+__CPROVER_requires(__CPROVER_is_fresh(stream_, sizeof(*stream_)) && g_exc == EXC_NONE && !g_exc_by_pointer)
+__CPROVER_assigns(GZ.init_called, GZ.gzip_only, g_exc, g_exc_by_pointer)
+/* C10: the decompressor is set up to accept the gzip format ONLY (a zlib or raw deflate stream under a .gz name is
+   "not gzip at all" and must be rejected by inflate); a failed initialisation raises */
+__CPROVER_ensures(g_exc == EXC_NONE ==> (GZ.init_called && GZ.gzip_only))
+__CPROVER_ensures(!g_exc_by_pointer);
+
+void h_gz_init(void) { struct z_stream_model *s; g_exc = EXC_NONE; g_exc_by_pointer = 0; GZ.init_called = 0; GZ.gzip_only = 0; gz_inflate_init(s); }
 void h_check_zlib(void) { g_exc = EXC_NONE; g_exc_by_pointer = 0; check_zlib_error_code(nondet_int()); }
 void h_gz_loop(void)
 {
